@@ -47,16 +47,16 @@ def Opaque.size (o : Opaque) : Nat := o.am.opaqueSize
 def Opaque.flags : Opaque → Nat
   | .btree _ _ _ f _ => f | .hash _ _ _ f => f | .gist _ _ f => f | .gin _ _ f => f | .spgist f _ _ => f | .brin _ _ f _ => f
 
-def hashPageId : Nat := 0xFF80
-def gistPageId : Nat := 0xFF81
-def spgistPageId : Nat := 0xFF82
-def brinMeta : Nat := 0xF091
-def brinRevmap : Nat := 0xF092
-def brinRegular : Nat := 0xF093
+abbrev hashPageId : Nat := 0xFF80
+abbrev gistPageId : Nat := 0xFF81
+abbrev spgistPageId : Nat := 0xFF82
+abbrev brinMeta : Nat := 0xF091
+abbrev brinRevmap : Nat := 0xF092
+abbrev brinRegular : Nat := 0xF093
 /-- `MAX_BT_CYCLE_ID` -/
-def btMaxCycleId : Nat := 0xFF7F
+abbrev btMaxCycleId : Nat := 0xFF7F
 /-- `BTREE_MAGIC` -/
-def btMagic : Nat := 0x053162
+abbrev btMagic : Nat := 0x053162
 
 def encOpaque : Opaque → Bytes
   | .btree p n l f c => le 4 p ++ le 4 n ++ le 4 l ++ le 2 f ++ le 2 c
@@ -206,9 +206,27 @@ instance (f : File) : Decidable f.metaOK := by
   cases f.pages.head? <;> cases f.metaPage <;> simp only <;> infer_instance
 
 def File.WF (f : File) : Prop :=
-  (∀ p ∈ f.pages, p.WF ∧ p.op.am = f.am) ∧ f.metaOK ∧ f.tail.length < 8192
+  (∀ p ∈ f.pages, p.WF ∧ p.op.am = f.am) ∧ f.metaOK ∧ f.tail.length < 8192 ∧ f.pages.length < 2 ^ 32
 
 instance (f : File) : Decidable f.WF := by unfold File.WF; infer_instance
+
+/-- The Spec's decision procedure: which access method a page belongs to, judged from `pd_special`, the last 16 bytes of
+the page and the first word after the page header — the only inputs that can tell the methods apart.
+16-byte special space: the last word is the hash / GiST page id, or a B-tree cycle id (≤ MAX_BT_CYCLE_ID; a page flagged
+BTP_META must carry BTREE_MAGIC).  8-byte special space: the last word is the SP-GiST page id, a BRIN page type, or
+the GIN flag word (eight defined bits).  Anything else is no index page of PostgreSQL. -/
+def classify (special : Nat) (last16 : Bytes) (word24 : Nat) : Option AM :=
+  if special = 8176 then
+    if rd 2 (last16.drop 14) = hashPageId then some .hash
+    else if rd 2 (last16.drop 14) = gistPageId then some .gist
+    else if rd 2 (last16.drop 14) ≤ btMaxCycleId ∧ ((rd 2 (last16.drop 12)).testBit 3 = true → word24 = btMagic) then some .btree
+    else none
+  else if special = 8184 then
+    if rd 2 (last16.drop 14) = spgistPageId then some .spgist
+    else if rd 2 (last16.drop 14) = brinMeta ∨ rd 2 (last16.drop 14) = brinRevmap ∨ rd 2 (last16.drop 14) = brinRegular then some .brin
+    else if rd 2 (last16.drop 14) < 256 then some .gin
+    else none
+  else none
 
 /-! ### what a correct tool reports -/
 
